@@ -83,9 +83,15 @@ def mutate(j, rng):
         if cands:
             d = get(j, rng.choice(cands))
             k = rng.random()
-            if k < 0.4:
+            if k < 0.2:
                 d['fields'].append(copy.deepcopy(rng.choice(d['fields'])))
                 name = 'duplicate-field'
+            elif k < 0.4:
+                # a duplicate hidden behind another field's alias of the same name
+                f0 = rng.choice([f for f in d['fields'] if isinstance(f, dict)] or [{'name': 'a', 'type': 'int'}])
+                d['fields'].append({'name': 'zz_alias_holder', 'type': 'int', 'aliases': [f0.get('name', 'a')]})
+                d['fields'].append(copy.deepcopy(f0))
+                name = 'duplicate-field-behind-alias'
             elif k < 0.7:
                 d['fields'].insert(rng.randint(0, len(d['fields'])), rng.choice([1, 'x', None, [], True]))
                 name = 'non-object-field'
